@@ -69,9 +69,10 @@ def load_registry():
 
 # ----------------------------------------------------------------------------- kani
 
-def run_kani(scratch, pkg, harnesses, timeout_s, extra=None):
+def run_kani(scratch, pkg, harnesses, timeout_s, harness_timeout=600, extra=None):
     src = scratch + "/src"
     cmd = ["cargo", "kani", "-p", pkg, "-Z", "stubbing", "-Z", "function-contracts",
+           "-Z", "unstable-options", "--harness-timeout", f"{harness_timeout}s",
            "--output-format=terse", "-j", str(max(2, min(NCPU, len(harnesses)))), "--exact"]
     for h in harnesses:
         cmd += ["--harness", h["full"]]
@@ -144,6 +145,8 @@ def parse_kani(out, harnesses):
                 if i + 1 < len(lines) and lines[i + 1].startswith(" File:"):
                     loc = lines[i + 1].strip()
                 r["failed_checks"].append({"desc": desc, "loc": loc})
+            if ln.startswith("CBMC timed out") or ln.startswith("CBMC failed"):
+                r["tool_failure"] = ln.strip()
             m = re.match(r"^VERIFICATION:- (\w+)", ln)
             if m:
                 r["status"] = m.group(1)
@@ -201,11 +204,17 @@ def concrete_playback(scratch, h, timeout_s=900):
         out = p.stdout
     except subprocess.TimeoutExpired as e:
         return None, "timeout in concrete playback"
-    m = re.search(r"```\n(.*?)```", out, re.S)
-    test = m.group(1) if m else None
+    test = None
+    for m in re.finditer(r"```\n(.*?)```", out, re.S):
+        if "Check for `cover`" in m.group(1):
+            continue
+        test = m.group(1)
+        break
     # keep only the tail of the raw output
-    tail = "\n".join(l for l in out.splitlines() if not re.match(r"^\s*(Compiling|warning|\||=|-->|\d+ \|)", l))
-    return test, tail[-6000:]
+    k = out.find("SUMMARY:")
+    tail = out[k:] if k >= 0 else "\n".join(l for l in out.splitlines() if not re.match(r"^\s*(Compiling|warning|\||=|-->|\d+ \|)", l))
+    tail = re.sub(r"(?s)Concrete playback unit test.*?```\n.*?```\n", "", tail)
+    return test, tail[-4000:]
 
 
 def native_replay(scratch, h, test_text, timeout_s=900):
@@ -290,7 +299,7 @@ def main(argv):
     try:
         if sel:
             try:
-                scratch, prep_log = prepare_scratch.prepare()
+                scratch, prep_log = prepare_scratch.prepare(os.environ.get("VERIF_SCRATCH"))
             except prepare_scratch.PrepError as e:
                 log(f"INCONCLUSIVE: {e}")
                 return 2
@@ -300,7 +309,7 @@ def main(argv):
             budget = 3000 if a.tier == "quick" else 4 * 3600
             for pkg, hs in by_pkg.items():
                 log(f"[kani] package {pkg}: {len(hs)} harness(es)")
-                r = run_kani(scratch, pkg, hs, budget)
+                r = run_kani(scratch, pkg, hs, budget, 600 if a.tier == 'quick' else 3600)
                 kani_runs.append({"pkg": pkg, "cmd": " ".join(r["cmd"][:12]) + " ...", "rc": r["rc"], "wall_s": round(r["wall"], 1)})
                 open(scratch + f"/kani_{pkg}.log", "w").write(r["out"])
                 if os.environ.get("VERIF_LOGDIR"):
@@ -356,7 +365,7 @@ def main(argv):
                         continue
                     violations.append({"harness": h, "desc": desc, "loc": loc, "engine": "kani"})
                 if pr["status"] == "FAILED" and not pr["failed_checks"]:
-                    inconclusive.append(f"{h['id']}: FAILED without a failed check listed")
+                    inconclusive.append(f"{h['id']}: no verdict ({pr.get('tool_failure', 'FAILED without a failed check listed')})")
 
         # ---------------- verus
         vres = None
@@ -426,7 +435,7 @@ def main(argv):
             return 2
         return 0
     finally:
-        if scratch and not a.keep:
+        if scratch and not a.keep and not os.environ.get("VERIF_SCRATCH"):
             shutil.rmtree(scratch, ignore_errors=True)
         elif scratch:
             log(f"kept scratch {scratch}")
